@@ -193,6 +193,8 @@ class Engine:
         self.interp = None
         self.samples_out = []
         self.pending_cross = []
+        self.modular = []
+        self.modular_used = set()
         self.native_clause_failures = []
         self.native_valid = {}
         self.float_noise = []
@@ -288,8 +290,46 @@ class Engine:
         pr.cmod = cmod
         return pr, B
 
+    # ------------------------------------------------------------ modular
+    def install_modular(self, it, current):
+        """calls to functions that have a `modular=True` contract are checked
+        against that contract (precondition asserted, result havocked and
+        constrained by the postcondition) instead of being inlined"""
+        for m in self.modular:
+            if m is current or m.target == getattr(current, 'target', None):
+                continue
+            it.contracts[m.target] = self._make_hook(m)
+
+    def _make_hook(self, m):
+        eng = self
+
+        def hook(it, fv, args, kwargs):
+            ctx = it.ctx
+            env = it.bind_args(fv, args, kwargs)
+            cmod = ClauseModule(it)
+            cenv = Env(cmod)
+            cenv.vars.update(env.vars)
+            ctx.modular_n = getattr(ctx, 'modular_n', 0) + 1
+            tag = '%s!call%d' % (fv.name, ctx.modular_n)
+            for r in m.requires:
+                v = it.ops.truth_value(eval_clause(it, r, cenv))
+                if v is True:
+                    continue
+                cond = z3.BoolVal(False) if v is False else v.t
+                ctx.side.append(('call:%s:pre' % fv.name, cond, list(ctx.pc)))
+            B = Builder(it)
+            res = m.returns.sym(B, tag)
+            cenv.vars['result'] = res
+            for (_lb, text) in m.ensures:
+                v = it.ops.truth_value(eval_clause(it, text, cenv))
+                ctx.assume(v)
+            eng.modular_used.add(m.target)
+            return res
+        return hook
+
     def _verify_contract(self, c, cfg):
         it = self.new_interp()
+        self.install_modular(it, c)
         specs = self.arg_specs(c, cfg)
         lab = cfg_label(cfg)
         base = '%s:%s%s' % (c.prop, c.name, lab)
